@@ -26,6 +26,12 @@ pub fn run(tier: Tier, seed: u64) {
         accept_set(seed, tier, *cbal, *mbal, *amt, i == 0);
         special_soundness(seed, *cbal, *mbal, *amt);
     }
+    lying_prover(seed, 100, 50, 7);
+    lying_prover(seed, 100, 50, -7);
+    if tier == Tier::Thorough {
+        lying_prover(seed, (1u64 << 63) - 1, 0, i64::MAX);
+        lying_prover(seed.wrapping_add(1), 3, 1000, 3);
+    }
     digits_bound();
     crate::props::c12::pay_level(seed, tier);
 }
@@ -342,5 +348,203 @@ fn digits_bound() {
             eng::finding(&format!("C02 range-weights {}", rc), &format!("the verifier's weights for {} are not 128^j, j<9", rc), None, json!({"kind":"model"}));
         }
     }
+    eng::path_done();
+}
+
+// ---------------------------------------------------------------- witness-space soundness (lying prover)
+/// The prover's whole witness is symbolic: the hidden new state, the hidden close state, the message of the revocation-lock
+/// commitment and every commitment scalar (shadow values: an honest customer's).  It holds a genuine pay token on the old
+/// state (o.id, o.nonce, o.lock, cbal, mbal) and runs the *public* builders of zkchannels-crypto; the image is assembled
+/// from their outputs and verified by the real `allow_payment` under two independently drawn challenges (rewound oracle).
+/// Obligation: accepted twice => the hidden values are the correct update of the old state.
+/// Not varied: the old state itself (a lie there needs a forged pay token: PS unforgeability, not posed) and the two range
+/// values (the range builder takes a concrete i64).
+fn lying_prover(seed: u64, cbal: u64, mbal: u64, amt: i64) {
+    use std::collections::HashMap;
+    let name = format!("C02 lying prover (cb={}, mb={}, amount={})", cbal, mbal, amt);
+    sx::begin(vec![], DrawMode::NonDegenerate, seed);
+    let mut rng = SeedRng::new(seed);
+    let w = world(&mut rng);
+    let pctx = Context::new(b"pay context");
+    let kp = w.merchant.signing_keypair().clone();
+    let pk = kp.public_key().clone();
+    let rparams = w.merchant.range_constraint_parameters();
+    let rev = w.merchant.revocation_commitment_parameters().clone();
+    let sv = |n: &str, sh: U256| Scalar::from_term(sx::fresh_scalar(n, sh));
+    let rnd = |k: u64| fq::reduce(&sx::prf(seed, 2000 + k, b"lying-pay"));
+    let (ncb, nmb) = (cbal as i128 - amt as i128, mbal as i128 + amt as i128);
+    if ncb < 0 || nmb < 0 || ncb > i64::MAX as i128 || nmb > i64::MAX as i128 {
+        eng::inconclusive(&format!("{}: the honest update is out of range", name));
+        return;
+    }
+    let (ncb, nmb) = (ncb as i64, nmb as i64);
+    // old state: fixed (not the prover's to choose), symbolic id / nonce / lock
+    let mo = [sv("o.id", rnd(1)), sv("o.nonce", rnd(2)), sv("o.lock", rnd(3)), Scalar::from(cbal), Scalar::from(mbal)];
+    let nonce: NonceT = match decode(&mo[1].to_bytes()) {
+        Some(n) => n,
+        None => {
+            eng::inconclusive(&format!("{}: nonce does not decode", name));
+            return;
+        }
+    };
+    sx::set_label("setup:paytoken");
+    let pay_token = Message::new(mo).sign(&mut rng, &kp);
+    // range builders (re-created from a cloned generator whenever a response is needed: same draws, same variables)
+    let rng_rc = rng.clone();
+    let mk_rc = |r: &SeedRng| {
+        let mut r = r.clone();
+        let c = RangeConstraintBuilder::generate_constraint_commitments(ncb, rparams, &mut r).expect("in range");
+        let m = RangeConstraintBuilder::generate_constraint_commitments(nmb, rparams, &mut r).expect("in range");
+        (c, m, r)
+    };
+    sx::set_label("prover");
+    let (rcc, rcm, r_after) = mk_rc(&rng_rc);
+    let (kcb, kmb) = (rcc.commitment_scalar(), rcm.commitment_scalar());
+    rng = r_after;
+    let (new_nonce, new_lock) = (rnd(4), rnd(5));
+    let honest_s = [mo[0].shadow(), new_nonce, new_lock, Scalar::from(ncb as u64).shadow(), Scalar::from(nmb as u64).shadow()];
+    let honest_c = [mo[0].shadow(), CLOSE_SCALAR.shadow(), new_lock, honest_s[3], honest_s[4]];
+    let hk_o = [rnd(10), rnd(11), rnd(12), kcb.shadow(), kmb.shadow()];
+    let hk_s = [hk_o[0], rnd(13), rnd(14), kcb.shadow(), kmb.shadow()];
+    let hk_c = [hk_o[0], rnd(15), hk_s[2], kcb.shadow(), kmb.shadow()];
+    let mut ms = [Scalar::zero(); 5];
+    let mut mc = [Scalar::zero(); 5];
+    let mut ko = [Scalar::zero(); 5];
+    let mut ks = [Scalar::zero(); 5];
+    let mut kc = [Scalar::zero(); 5];
+    for i in 0..5 {
+        ms[i] = sv(&format!("w.ms{}", i), honest_s[i]);
+        mc[i] = sv(&format!("w.mc{}", i), honest_c[i]);
+        ko[i] = sv(&format!("w.ko{}", i), hk_o[i]);
+        ks[i] = sv(&format!("w.ks{}", i), hk_s[i]);
+        kc[i] = sv(&format!("w.kc{}", i), hk_c[i]);
+    }
+    let r_msg = sv("w.r", mo[2].shadow());
+    let kr = sv("w.kr", hk_o[2]);
+    let kappa_n = sv("w.kappa_nonce", hk_o[1]);
+    let kappa_c = sv("w.kappa_close", hk_c[1]);
+    let rlb = CommitmentProofBuilder::<G1Projective, 1>::generate_proof_commitments(&mut rng, Message::new([r_msg]), &[Some(kr)], &rev);
+    let otb = SignatureProofBuilder::<5>::generate_proof_commitments(&mut rng, Message::new(mo), pay_token, &ko.map(Some), &pk);
+    let sb = SignatureRequestProofBuilder::<5>::generate_proof_commitments(&mut rng, Message::new(ms), &ks.map(Some), &pk);
+    let cbl = SignatureRequestProofBuilder::<5>::generate_proof_commitments(&mut rng, Message::new(mc), &kc.map(Some), &pk);
+    drop((rcc, rcm));
+    let assemble = |c: Challenge| -> Vec<u8> {
+        let (rcc, rcm, _) = mk_rc(&rng_rc);
+        let mut bytes = vec![];
+        bytes.extend_from_slice(&kappa_n.to_bytes());
+        bytes.extend_from_slice(&kappa_c.to_bytes());
+        bytes.extend(atoms::layout(&otb.clone().generate_proof_response(c)).bytes);
+        bytes.extend(atoms::layout(&rlb.clone().generate_proof_response(c)).bytes);
+        bytes.extend(atoms::layout(&sb.clone().generate_proof_response(c)).bytes);
+        bytes.extend(atoms::layout(&cbl.clone().generate_proof_response(c)).bytes);
+        bytes.extend(atoms::layout(&rcc.generate_constraint_response(c)).bytes);
+        bytes.extend(atoms::layout(&rcm.generate_constraint_response(c)).bytes);
+        bytes
+    };
+    let mut challenges = vec![];
+    let mut accepted = vec![];
+    for round in 0..2 {
+        if round == 1 {
+            sx::new_oracle();
+        }
+        sx::set_label(&format!("draft{}", round));
+        let draft: Option<PProof> = decode(&assemble(sym_challenge(&format!("draftc{}", round))));
+        let Some(draft) = draft else {
+            eng::inconclusive(&format!("{}: the assembled proof image does not decode", name));
+            return;
+        };
+        sx::set_force(Some(false));
+        let _ = w.merchant.allow_payment(&mut rng, amount(amt), &nonce, draft, &pctx);
+        sx::set_force(None);
+        let raw = sx::with(|a| a.hashes.iter().rev().find(|h| a.labels[h.label as usize] == format!("draft{}", round) && h.raw_len > 64).map(|h| h.raw.clone()));
+        let Some(raw) = raw else {
+            eng::inconclusive(&format!("{}: no challenge transcript recorded", name));
+            return;
+        };
+        sx::set_label(&format!("chal{}", round));
+        let c = ChallengeBuilder::new().with_bytes(&raw).finish();
+        challenges.push(c);
+        sx::set_label(&format!("verify{}", round));
+        let Some(p) = decode::<PProof>(&assemble(c)) else {
+            eng::inconclusive(&format!("{}: the final proof image does not decode", name));
+            return;
+        };
+        accepted.push(w.merchant.allow_payment(&mut rng, amount(amt), &nonce, p, &pctx).is_some());
+    }
+    if accepted != vec![true, true] {
+        eng::inconclusive(&format!("{}: the honest-valued witness is not accepted in both rounds ({:?})", name, accepted));
+        return;
+    }
+    let (c1, c2) = (challenges[0].to_scalar(), challenges[1].to_scalar());
+    sx::assume(ne(c1, c2), "independent challenges differ (rewound oracle)");
+    let mut names: Vec<String> = vec![];
+    let mut unknowns: Vec<Tid> = vec![];
+    for (pfx, arr) in [("w.ms", &ms), ("w.mc", &mc), ("w.ko", &ko), ("w.ks", &ks), ("w.kc", &kc)] {
+        for (i, v) in arr.iter().enumerate() {
+            names.push(format!("{}{}", pfx, i));
+            unknowns.push(v.term());
+        }
+    }
+    for (n, v) in [("w.r", r_msg), ("w.kr", kr), ("w.kappa_nonce", kappa_n), ("w.kappa_close", kappa_c)] {
+        names.push(n.to_string());
+        unknowns.push(v.term());
+    }
+    eng::set_cex_unknowns(&unknowns);
+    let a = amount_scalar(amt);
+    let goals: Vec<(&str, Scalar, Scalar)> = vec![
+        ("hidden new state slot0 = old channel id", ms[0], mo[0]),
+        ("hidden close state slot0 = old channel id", mc[0], mo[0]),
+        ("hidden close state slot1 = close tag", mc[1], CLOSE_SCALAR),
+        ("hidden new state and close state share slot2 (revocation lock)", ms[2], mc[2]),
+        ("committed old revocation lock = lock of the old state", r_msg, mo[2]),
+        ("hidden new customer balance = old - amount", ms[3], mo[3] - a),
+        ("hidden new merchant balance = old + amount", ms[4], mo[4] + a),
+        ("hidden close state slot3 = new customer balance", mc[3], ms[3]),
+        ("hidden close state slot4 = new merchant balance", mc[4], ms[4]),
+    ];
+    let base: Vec<F> = {
+        let mut h = eng::axioms();
+        h.extend(sx::with(|ar| ar.decisions.iter().filter(|d| !ar.labels[d.label as usize].starts_with("draft")).map(|d| d.cond.clone().with_outcome(d.outcome)).collect::<Vec<_>>()));
+        h
+    };
+    if !sx::eval_with(&HashMap::new(), &base).iter().all(|b| *b) {
+        eng::inconclusive(&format!("{}: the hypotheses are not satisfied by the honest witness (vacuous experiment)", name));
+        return;
+    }
+    for (nm, x, y) in goals {
+        let mut h = base.clone();
+        let prod = (c1 - c2) * (x - y);
+        h.push(F::iff(is_z(prod), F::or(vec![is_z(c1 - c2), is_z(x - y)])));
+        match eng::valid(&format!("{}: accepted for two independent challenges => {}", name, nm), &h, &eq(x, y)) {
+            Tri::Yes => {}
+            Tri::No(model) => {
+                let mut delta = serde_json::Map::new();
+                let mut foreign = false;
+                for (n, sh) in sx::with(|ar| ar.vars.iter().map(|v| (v.name.clone(), fq::reduce(&v.shadow))).collect::<Vec<_>>()) {
+                    if let Some(v) = model.get(&n) {
+                        let d = fq::sub(&fq::reduce(&fq::from_dec(v)), &sh);
+                        if d != fq::ZERO {
+                            if names.contains(&n) {
+                                delta.insert(n.clone(), json!(fq::to_dec(&d)));
+                            } else {
+                                foreign = true;
+                            }
+                        }
+                    }
+                }
+                // a model that also moves variables outside the prover's witness (keys, draws, digests) is still a
+                // counterexample, but not one the lying-prover replay can follow: model-level
+                let replay = if foreign { json!({"kind": "model"}) } else { json!({"kind": "lie-pay", "delta": delta, "cb": cbal, "mb": mbal, "amount": amt, "violates": nm}) };
+                eng::finding(
+                    &format!("C02 fake-witness-accepted {}", nm),
+                    &format!("{}: a prover using the public builders on a witness violating '{}' is accepted for every challenge", name, nm),
+                    Some(model),
+                    replay,
+                );
+            }
+            Tri::Unknown(_) => {}
+        }
+    }
+    eng::set_cex_unknowns(&[]);
     eng::path_done();
 }
